@@ -749,7 +749,14 @@ impl Constructor {
             (Constructor::Bool(b1), Constructor::Bool(b2)) => b1 == b2,
             (Constructor::Variant(..), Constructor::Variant(..)) => self == other,
             (Constructor::Int(i1), Constructor::Int(i2)) => i1 == i2,
-            (Constructor::Float(f1), Constructor::Float(f2)) => f1 == f2,
+            // the same value in another spelling (`1.0`, `1.00`, `01.0`) is the same
+            // constructor: compare the parsed values the way the VM compares floats
+            (Constructor::Float(f1), Constructor::Float(f2)) => {
+                match (f1.parse::<f64>(), f2.parse::<f64>()) {
+                    (Ok(a), Ok(b)) => a.to_bits() == b.to_bits(),
+                    _ => f1 == f2,
+                }
+            }
             (Constructor::String(s1), Constructor::String(s2)) => s1 == s2,
             (Constructor::Product, Constructor::Product) => true,
             _ => panic!(
